@@ -112,6 +112,44 @@ theorem cfBlock_inv : ∀ (ls : List (List Bytes)) (a a' : CfAdmin), cfBlock ls 
       · right; exact ⟨l', by simp [hl'], hm⟩
     · cases h
 
+theorem cfLine_origins : ∀ (l : List Bytes) (a a' : CfAdmin) (os : List Bytes), cfLine l a = some a' →
+    a'.origins = some os → a.origins = some os ∨ ∀ o ∈ os, o ∈ l := by
+  intro l
+  induction l with
+  | nil => intro a a' os h ho; simp [cfLine] at h; subst h; exact Or.inl ho
+  | cons t rest ih =>
+    intro a a' os h ho
+    unfold cfLine at h
+    split at h
+    · rcases ih _ _ os h ho with h1 | h1
+      · exact Or.inl h1
+      · exact Or.inr (fun o hm => by simp [h1 o hm])
+    · split at h
+      · cases h
+        by_cases hr : rest = []
+        · simp [hr] at ho
+        · simp [hr] at ho
+          subst ho
+          exact Or.inr (fun o hm => by simp [hm])
+      · cases h
+
+theorem cfBlock_origins : ∀ (ls : List (List Bytes)) (a a' : CfAdmin) (os : List Bytes), cfBlock ls a = some a' →
+    a'.origins = some os → a.origins = some os ∨ ∃ l ∈ ls, ∀ o ∈ os, o ∈ l := by
+  intro ls
+  induction ls with
+  | nil => intro a a' os h ho; simp [cfBlock] at h; subst h; exact Or.inl ho
+  | cons l ls ih =>
+    intro a a' os h ho
+    unfold cfBlock at h
+    split at h
+    · rename_i a1 h1
+      rcases ih a1 a' os h ho with h2 | ⟨l', hl', hm⟩
+      · rcases cfLine_origins l a a1 os h1 h2 with h3 | h3
+        · exact Or.inl h3
+        · exact Or.inr ⟨l, by simp, h3⟩
+      · exact Or.inr ⟨l', by simp [hl'], hm⟩
+    · cases h
+
 /-- every successful parse is "`off`" or a run of the block from a start state with the flag off and
     no origins -/
 theorem parseOptAdmin_cases (dflt : Bytes) (args : List Bytes) (block : Option (List (List Bytes)))
